@@ -45,6 +45,8 @@ func init() {
 
 // ---- interpreter over the real text/template/parse tree
 
+type tmplError struct{ msg string }
+
 type tval struct {
 	v Value
 	t types.Type
@@ -134,6 +136,16 @@ func (s *tmplState) evalArg(dot tval, n parse.Node) tval {
 		return tval{chStr(s.e.tf, a.Text), types.Typ[types.String]}
 	case *parse.PipeNode:
 		return s.evalPipe(dot, a)
+	case *parse.ChainNode:
+		x := s.evalArg(dot, a.Node)
+		for _, id := range a.Field {
+			x = s.field(x, id)
+		}
+		return x
+	case *parse.NumberNode:
+		if a.IsInt {
+			return tval{s.e.tf.Int(a.Int64), types.Typ[types.Int]}
+		}
 	}
 	s.e.unsupported("template: argument node %T", n)
 	return tval{}
@@ -142,6 +154,30 @@ func (s *tmplState) evalArg(dot tval, n parse.Node) tval {
 func (s *tmplState) evalCommand(dot tval, c *parse.CommandNode) tval {
 	e := s.e
 	if id, ok := c.Args[0].(*parse.IdentifierNode); ok {
+		// the built-in functions the templates may use
+		switch id.Ident {
+		case "index":
+			if len(c.Args) != 3 {
+				e.unsupported("template: index with %d arguments", len(c.Args)-1)
+			}
+			coll := s.evalArg(dot, c.Args[1])
+			idx, ok := constInt(s.evalArg(dot, c.Args[2]).v.(*Term))
+			sl, isSl := coll.v.(SliceV)
+			if !ok || !isSl {
+				e.unsupported("template: index on %T", coll.v)
+			}
+			if idx < 0 || idx >= sl.Len {
+				// text/template reports an error: Execute fails
+				panic(tmplError{"index out of range"})
+			}
+			return tval{getPath(sl.Arr.V, []int{sl.Off + idx}), coll.t.Underlying().(*types.Slice).Elem()}
+		case "len":
+			coll := s.evalArg(dot, c.Args[1])
+			if sl, ok := coll.v.(SliceV); ok {
+				return tval{e.tf.Int(int64(sl.Len)), types.Typ[types.Int]}
+			}
+			e.unsupported("template: len of %T", coll.v)
+		}
 		var fv Value
 		if s.tpl.funcs != nil {
 			for i, k := range s.tpl.funcs.Keys {
@@ -288,6 +324,9 @@ func init() {
 			e.unsupported("template with symbolic text")
 		}
 		funcs := map[string]interface{}{}
+		for _, b := range []string{"and", "call", "html", "index", "slice", "js", "len", "not", "or", "print", "printf", "println", "urlquery", "eq", "ge", "gt", "le", "lt", "ne"} {
+			funcs[b] = func() {}
+		}
 		if tpl.funcs != nil {
 			for _, k := range tpl.funcs.Keys {
 				if ks, ok := k.(StrV).Const(); ok {
@@ -305,7 +344,22 @@ func init() {
 		}
 		data := a[2].(IfaceV)
 		st := &tmplState{e: e, fr: fr, tpl: tpl, vars: []map[string]tval{{"$": {data.V, data.T}}}}
-		st.walk(tval{data.V, data.T}, tree.Root)
+		var terr *tmplError
+		func() {
+			defer func() {
+				if r := recover(); r != nil {
+					if te, ok := r.(tmplError); ok {
+						terr = &te
+						return
+					}
+					panic(r)
+				}
+			}()
+			st.walk(tval{data.V, data.T}, tree.Root)
+		}()
+		if terr != nil {
+			return e.newError("template: " + terr.msg)
+		}
 		// write to the destination buffer
 		w := a[1].(IfaceV)
 		bp, ok := w.V.(Ptr)
